@@ -93,6 +93,8 @@ bool LoadScenario(const js::J& j, Scenario* s, string* err) {
       op.dry_run = oj["dry_run"].boolean(false);
       op.cfg.args = op.flags;
       for (auto& t : op.targets) op.cfg.args.push_back(t);
+      // the oracles think in canonical names: a target typed relative to $builddir ("lib" for bd/lib) is given twice
+      if (!oj["targets_canonical"].is_null()) op.targets = oj["targets_canonical"].strs();
       for (auto& kv : oj["faults"].o) op.cfg.faults[kv.first] = LoadFault(kv.second);
       for (auto& kv : oj["env"].o) op.cfg.env[kv.first] = kv.second.s;
       op.cfg.allow_interrupt = oj["interrupt"].boolean(false);
